@@ -1,10 +1,11 @@
 // ---- prelude/meta_spec.rs: the 60 hashed bytes of a header record, in the pinned order ----
-spec fn meta_fields_bytes(meta_page: u32, magic: u32, version: u32, pagesize: u64, root_page: u64,
+pub open spec fn meta_fields_bytes(meta_page: u32, magic: u32, version: u32, pagesize: u64, root_page: u64,
                                    next_int: u64, num_pages: u64, freelist_page: u64, tx_id: u64) -> Seq<u8> {
     be32(meta_page) + be32(magic) + be32(version) + be64(pagesize) + be64(root_page)
         + be64(next_int) + be64(num_pages) + be64(freelist_page) + be64(tx_id)
 }
-spec fn meta_bytes(m: Meta) -> Seq<u8> {
+pub closed spec fn meta_bytes(m: Meta) -> Seq<u8> {
     meta_fields_bytes(m.meta_page, m.magic, m.version, m.pagesize, m.root.root_page, m.root.next_int,
                       m.num_pages, m.freelist_page, m.tx_id)
 }
+pub closed spec fn meta_hash_ok(m: Meta) -> bool { m.hash == fnv1a(meta_bytes(m)) }
